@@ -53,6 +53,29 @@ func execKeys(c *ctx, in ev) []ev {
 			out["un_rsa_n"], out["un_rsa_e"] = B(k2.N.Bytes()), B(beInt(k2.E))
 		}
 		return []ev{out}
+	case "DecodedNameKey":
+		// a name key received as bytes (every suite go-hpke implements), decoded, then used by a client
+		orig := gB(in, "enc")
+		out := ev{"op": "NameKey", "fields": ev{"id": 0, "kem": 0, "pk": B(nil), "kdf": 0, "aead": 0}, "marshal": B(nil), "sha_marshal": B(nil),
+			"name_key_id": B(nil), "orig": B(orig), "decoded": false}
+		nk, err := type3.UnmarshalEncapKey(orig)
+		if err != nil {
+			return []ev{out}
+		}
+		out["decoded"] = true
+		id, kem, kdf, aead, pk := nk.VerifFields()
+		m := nk.Marshal()
+		so := sha256.Sum256(orig)
+		out["fields"] = ev{"id": int(id), "kem": int(kem), "pk": B(pk), "kdf": int(kdf), "aead": int(aead)}
+		out["marshal"], out["sha_marshal"] = B(m), B(so[:])
+		r := newRand(c.seed, "decoded-namekey")
+		key := rsaKey(0)
+		st, err := type3.NewRateLimitedClientFromSecret(p384Scalar(c.seed, "c-dnk")).CreateTokenRequest(
+			randBytes(r, 8), randNonce(r), p384Scalar(c.seed, "b-dnk"), make([]byte, 32), &key.PublicKey, "o", nk)
+		if err == nil {
+			out["name_key_id"] = B(st.Request().NameKeyID)
+		}
+		return []ev{out}
 	case "KeyId":
 		kind, name := gS(in, "kind"), gS(in, "name")
 		r := newRand(c.seed, "keyid-"+name)
@@ -107,7 +130,7 @@ func execKeys(c *ctx, in ev) []ev {
 			m := nk.Marshal()
 			sm := sha256.Sum256(m)
 			evs = append(evs, ev{"op": "NameKey", "fields": ev{"id": int(id), "kem": int(kem), "pk": B(pk), "kdf": int(kdf), "aead": int(aead)},
-				"marshal": B(m), "sha_marshal": B(sm[:]), "name_key_id": B(st.Request().NameKeyID)})
+				"marshal": B(m), "sha_marshal": B(sm[:]), "name_key_id": B(st.Request().NameKeyID), "orig": B(m), "decoded": true})
 		}
 		sp := sha256.Sum256(pub)
 		out["pub"], out["sha_pub"], out["key_id"], out["trunc"] = B(pub), B(sp[:]), B(keyID), trunc
@@ -146,6 +169,13 @@ func genKeys(c *ctx, emit func(ev)) {
 		name := strings.Repeat("k", 1) + string(rune('a'+i%26)) + string(rune('0'+i/26))
 		emit(ev{"op": "KeyId", "kind": "t1", "name": name})
 		emit(ev{"op": "KeyId", "kind": "t5", "name": name})
+	}
+	for _, kdf := range []int{1, 2, 3} {
+		for _, aead := range []int{1, 2, 3} {
+			enc := append([]byte{byte(r.Intn(256)), 0x00, 0x20}, randBytes(r, 32)...)
+			enc = append(enc, byte(kdf>>8), byte(kdf), byte(aead>>8), byte(aead))
+			emit(ev{"op": "DecodedNameKey", "enc": B(enc)})
+		}
 	}
 	for i := 0; i < 4; i++ {
 		emit(ev{"op": "KeyId", "kind": "t2", "name": "rsa", "rsa": i})
